@@ -17,7 +17,7 @@ CONSTANTS MaxFlat, Pairs, Seed
 
 SS == INSTANCE SharedState WITH DefaultCopied <- TRUE, RouteCopied <- TRUE, SettingsPerCall <- TRUE, VisitReadsSettings <- TRUE,
          RegistryInitOnly <- TRUE, TypeInfosLocked <- TRUE, PatternCacheAtomic <- TRUE, UriCacheLocked <- TRUE,
-         UniqueCheckerSet <- TRUE, WithWriters <- FALSE, MaxOps <- 1, prog <- <<>>, held <- <<>>
+         UniqueCheckerReadOnly <- TRUE, WithWriters <- FALSE, MaxOps <- 1, prog <- <<>>, held <- <<>>
 
 (* ordered, so that multisets are enumerated once and Seed can rotate through them *)
 FlatSeq == <<"find_mux", "find_legacy", "find_mux_servers", "find_legacy_servers", "vreq_params", "vreq_params_delete", "vreq_body_pattern",
